@@ -144,6 +144,11 @@ def run_c03(tier, seed):
     for name in G.DIRECT + G.DERIVED + ["PING", "ECHO", "SELECT", "CONFIG", "AUTH", "NOSUCH"]:
         for a in sysargs:
             cases.append(dict(reqs=[(name, a)], line=None, chunk="whole", quit_at=None))
+    # patterns with the characters that mean something to a glob or regular-expression translator at their edges (a trailing
+    # backslash, an unclosed bracket or brace): the pattern is translated inside the command dispatch - whatever it spells, the
+    # request is answered and so are the ones behind it
+    for pat in (b"\\", b"user:\\", b"*\\", b"a\\b", b"\\\\", b"[", b"[a", b"a]", b"[]", b"[^", b"{", b"{a,", b"(?", b"\\Q", b"a\\", b"**", b"?\\"):
+        cases.append(dict(reqs=[("SCAN", [b"0", b"MATCH", pat]), ("PING", []), ("SCAN", [b"0", b"MATCH", pat, b"COUNT", b"10"]), ("ECHO", [b"after"])], line=None, chunk="whole", quit_at=None, magic=True))
     # requests with very many elements (beyond any pre-allocation cap of the parser), followed by ordinary ones
     import thresholds as T
     for nel in T.extend([1023, 1024, 1025, 1026, 1100, 2049, 2500], 3, 20000, limit=6):
